@@ -53,6 +53,8 @@ Record LogsInv (dl : datalog) : Prop := {
   li_wf : forall i d, nget dl i = Some d -> exists all, WFp (d_log d) all
 }.
 
+Definition B62 : N := 4611686018427387904.     (* 2^62 *)
+
 (** the cursor part, relative to a data log [dl] (normally [r_datalog st]) *)
 Record CInvD (dl : datalog) (st : rstate) : Prop := {
   ci_trk : forall k t, slab_get (r_trackers st) k = Some t -> Forall (RqOk dl) (tr_reqs t);
@@ -60,16 +62,17 @@ Record CInvD (dl : datalog) (st : rstate) : Prop := {
   ci_notif : Forall (WtOk dl) (r_notif st);
   ci_grave : Forall (SessOk dl) (r_graveyard st);
   ci_infl : forall k o, slab_get (r_obufs st) k = Some o -> Forall (InflOk dl) (o_inflight o);
-  ci_groups : Forall (GrpOk dl) (r_groups st)
+  ci_groups : Forall (GrpOk dl) (r_groups st);
+  (* the per-sweep read limit of QoS 0 subscriptions ([max_outgoing_packet_count]) is a sane
+     number; carried here because the configuration never changes *)
+  ci_cfg : cf_max_outgoing (r_cfg st) < B62
 }.
 
 Definition CInv (st : rstate) : Prop := LogsInv (r_datalog st) /\ CInvD (r_datalog st) st.
 
 (** the resource bound the C13 read theorems need: fewer than 2^62 entries were ever appended
-    to any one filter log, and the per-sweep read limit is below 2^62 *)
-Definition B62 : N := 4611686018427387904.
+    to any one filter log *)
 Definition Bounded (st : rstate) : Prop :=
-  cf_max_outgoing (r_cfg st) < B62 /\
   forall i d, nget (r_datalog st) i = Some d -> end_of (d_log d) < B62.
 
 (* ------------------------------------------------------------------ the order on data logs *)
@@ -106,7 +109,7 @@ Qed.
 Lemma curok_mono dl dl' i c : LogsInv dl -> dl_le dl dl' -> CurOk dl i c -> CurOk dl' i c.
 Proof.
   intros LI [Hle _] (d & Hd & Hi & Hb). destruct (Hle _ _ Hd) as (d' & Hd' & _ & L).
-  destruct (li_wf _ LI _ _ Hd) as [all W]. destruct (L all W) as (xs & W' & HI).
+  destruct (li_wf _ LI _ _ Hd) as [all W]. destruct (L all W) as (xs & W' & HI & _).
   exists d'. split; [exact Hd'|]. split; [now apply HI|].
   pose proof (log_le_end pubdata_size _ _ all L W). lia.
 Qed.
@@ -139,24 +142,25 @@ Proof. intros LI L. unfold SessOk. destruct (snd cs); [|auto]. now apply rqsok_m
 
 Lemma cinvd_mono dl dl' st : LogsInv dl -> dl_le dl dl' -> CInvD dl st -> CInvD dl' st.
 Proof.
-  intros LI L [H1 H2 H3 H4 H5 H6]. constructor.
+  intros LI L [H1 H2 H3 H4 H5 H6 H7]. constructor.
   - intros k t Ht. eapply rqsok_mono; eauto.
   - intros i d Hd. eapply wtsok_mono; eauto.
   - eapply wtsok_mono; eauto.
   - revert H4. apply Forall_impl. intros cs. now apply sessok_mono.
   - intros k o Ho. specialize (H5 _ _ Ho). revert H5. apply Forall_impl. intros e. now apply inflok_mono.
   - revert H6. apply Forall_impl. intros ng. now apply grpok_mono.
+  - exact H7.
 Qed.
 
 (* ------------------------------------------------------------------ primitive updates *)
-(** the six components the invariant reads *)
+(** the components the invariant reads *)
 Definition cview (st : rstate) :=
-  (r_trackers st, r_notif st, r_graveyard st, r_obufs st, r_groups st, r_datalog st).
+  (r_trackers st, r_notif st, r_graveyard st, r_obufs st, r_groups st, r_datalog st, r_cfg st).
 
 Lemma cinvd_view dl st st' : cview st' = cview st -> CInvD dl st -> CInvD dl st'.
 Proof.
-  unfold cview. intros E [H1 H2 H3 H4 H5 H6]. inversion E as [[E1 E2 E3 E4 E5 E6]].
-  constructor; rewrite ?E1, ?E2, ?E3, ?E4, ?E5, ?E6; assumption.
+  unfold cview. intros E [H1 H2 H3 H4 H5 H6 H7]. inversion E as [[E1 E2 E3 E4 E5 E6 E7]].
+  constructor; rewrite ?E1, ?E2, ?E3, ?E4, ?E5, ?E6, ?E7; assumption.
 Qed.
 
 Lemma cinv_view st st' : cview st' = cview st -> CInv st -> CInv st'.
@@ -168,28 +172,28 @@ Qed.
 Lemma cinvd_put_tracker dl st id t' :
   CInvD dl st -> Forall (RqOk dl) (tr_reqs t') -> CInvD dl (put_tracker st id t').
 Proof.
-  intros [H1 H2 H3 H4 H5 H6] Ht. constructor; rsimpl; try assumption.
+  intros [H1 H2 H3 H4 H5 H6 H7] Ht. constructor; rsimpl; try assumption.
   intros k t Hk. apply slab_get_put_inv in Hk. destruct Hk as [[-> ->] | [_ Hk]]; [exact Ht|eauto].
 Qed.
 
 Lemma cinvd_put_obuf dl st id o' :
   CInvD dl st -> Forall (InflOk dl) (o_inflight o') -> CInvD dl (put_obuf st id o').
 Proof.
-  intros [H1 H2 H3 H4 H5 H6] Ho. constructor; rsimpl; try assumption.
+  intros [H1 H2 H3 H4 H5 H6 H7] Ho. constructor; rsimpl; try assumption.
   intros k o Hk. apply slab_get_put_inv in Hk. destruct Hk as [[-> ->] | [_ Hk]]; [exact Ho|eauto].
 Qed.
 
 Lemma cinvd_set_notif dl st v : CInvD dl st -> Forall (WtOk dl) v -> CInvD dl (set_r_notif st v).
-Proof. intros [H1 H2 H3 H4 H5 H6] Hv. constructor; rsimpl; assumption. Qed.
+Proof. intros [H1 H2 H3 H4 H5 H6 H7] Hv. constructor; rsimpl; assumption. Qed.
 
 Lemma cinvd_set_groups dl st v : CInvD dl st -> Forall (GrpOk dl) v -> CInvD dl (set_r_groups st v).
-Proof. intros [H1 H2 H3 H4 H5 H6] Hv. constructor; rsimpl; assumption. Qed.
+Proof. intros [H1 H2 H3 H4 H5 H6 H7] Hv. constructor; rsimpl; assumption. Qed.
 
 (** replacing the data log by one whose waiter lists are fine *)
 Lemma cinvd_set_datalog dl st dl2 :
   CInvD dl st -> (forall i d, nget dl2 i = Some d -> Forall (WtOk dl) (d_waiters d)) ->
   CInvD dl (set_r_datalog st dl2).
-Proof. intros [H1 H2 H3 H4 H5 H6] Hv. constructor; rsimpl; assumption. Qed.
+Proof. intros [H1 H2 H3 H4 H5 H6 H7] Hv. constructor; rsimpl; assumption. Qed.
 
 (* ------------------------------------------------------------------ association lists *)
 Lemma Forall_al_set {V} (P : str * V -> Prop) k v m :
